@@ -2,7 +2,10 @@
 PROP = "C18"
 LEVEL = "other"
 EXPLANATION = 'bounded stand-in: exhaustive answer-script trees on real questions under read/write budgets'
-TARGETS = []
+from pyvc.contracts import REG as R
+from . import question_contracts as qc
+R.opaque_hook = qc.opaque_question
+TARGETS = [qc.VA]
 LEMMAS = []
 try:
     from .C18_bounded import bounded, BOUNDED_RULE  # noqa: F401
